@@ -133,6 +133,13 @@ func (x *FnExec) staticCall(fr *frame, n *node, in ssa.Instruction, callee *ssa.
 		return r, nil
 	}
 	inlineOK := callee.Parent() != nil || (spec != nil && spec.Inline)
+	if !inlineOK && spec == nil && x.eng.isRepoFunc(callee) && fr.depth < 3 {
+		// small loop-free repository helpers (generated getters, predicates) are executed in place: precise, no assumption
+		x.eng.ensureBuilt(callee)
+		if smallLoopFree(callee) {
+			inlineOK = true
+		}
+	}
 	if inlineOK && x.eng.isRepoFunc(callee) && fr.depth < x.depthLimit {
 		x.eng.ensureBuilt(callee)
 		if callee.Blocks != nil {
@@ -656,4 +663,35 @@ func (x *FnExec) deepCopyModel(fr *frame, n *node, in ssa.Instruction, callee *s
 	x.trusted["generated DeepCopy: fresh object; reference-free fields copied, reference-carrying fields arbitrary; no existing object written"] = true
 	res := x.q.define(hint, "Ref", ite(eq(src, "nil"), "nil", r))
 	return Val{S: res, T: resT}, true
+}
+
+// smallLoopFree: a function whose body is small and has no back edge (and does not call itself).
+func smallLoopFree(f *ssa.Function) bool {
+	if f.Blocks == nil || len(f.Blocks) > 12 {
+		return false
+	}
+	n := 0
+	for _, b := range f.Blocks {
+		n += len(b.Instrs)
+		for _, s := range b.Succs {
+			if s.Dominates(b) {
+				return false
+			}
+		}
+		for _, in := range b.Instrs {
+			switch in := in.(type) {
+			case *ssa.Go, *ssa.Defer, *ssa.Select, *ssa.Send, *ssa.Range:
+				return false
+			case *ssa.UnOp:
+				if _, isG := in.X.(*ssa.Global); isG {
+					return false // reads package state: keep it summarised
+				}
+			case ssa.CallInstruction:
+				if callee, ok := in.Common().Value.(*ssa.Function); ok && callee == f {
+					return false
+				}
+			}
+		}
+	}
+	return n <= 120
 }
